@@ -217,7 +217,7 @@ type c04Case struct {
 func init() {
 	Register(Meta{
 		ID: "C04", Level: "exploration", HangIsViolation: true,
-		Rule:        "data texts: (a) every byte string of length <=3 (quick) / <=4 (thorough) over a 17-byte JSON structural alphabet incl. 0xFF; (b) every proper prefix and every single-byte deletion of three valid documents (flat, AMF-compact with context, lexical); (c) non-JSON formats: a YAML profile, a RAML header, UTF-16LE/BE and UTF-8-BOM encodings, empty, blanks; (d) 30 JSON-LD keyword misuses as the whole document and nested at depth 1 and 2. x 3 compiled profiles x entry points Validate, ValidateWithConfiguration, ValidateCompiled, ValidateCompiledWithConfiguration and the CLI `acv validate` / `acv normalize` (CLI on classes b-d and strings of length <=2). Membership in 'unreadable' is decided by an independent recogniser cross-checked against encoding/json on every input; 'JSON-LD rejects' by calling json-gold directly. Oracle: unreadable or rejected => error and no report (CLI: non-zero exit, empty stdout). Non-trivial = unreadable or rejected input; distinct by bytes.",
+		Rule:        "data texts: (a) every byte string of length <=3 (quick) / <=4 (thorough) over a 17-byte JSON structural alphabet incl. 0xFF; (b) every proper prefix and every single-byte deletion of three valid documents (flat, AMF-compact with context, lexical); (c) non-JSON formats: a YAML profile, a RAML header, UTF-16LE/BE and UTF-8-BOM encodings, empty, blanks; (d) 30 JSON-LD keyword misuses as the whole document and nested at depth 1 and 2; (e) documents of 129..4097 (thorough 16385) nodes with one invalid node first / in the middle / at index 128, 2048, 4096 / last, in three document forms, and truncated. x 3 compiled profiles x entry points Validate, ValidateWithConfiguration, ValidateCompiled, ValidateCompiledWithConfiguration and the CLI `acv validate` / `acv normalize` (CLI on classes b-d and strings of length <=2). Membership in 'unreadable' is decided by an independent recogniser cross-checked against encoding/json on every input; 'JSON-LD rejects' by calling json-gold directly. Oracle: unreadable or rejected => error and no report (CLI: non-zero exit, empty stdout). Non-trivial = unreadable or rejected input; distinct by bytes.",
 		Assumptions: []string{"json-gold's Flatten is the definition of 'JSON-LD processing rejects it'"},
 	}, c04Gen, c04Run)
 }
@@ -263,6 +263,56 @@ func c04Misuses() []string {
 		out = append(out, b,
 			`{"@id":"http://ex.org/a","@type":"http://ex.org/T","http://ex.org/c":`+b+`}`,
 			`{"@graph":[{"@id":"http://ex.org/a","@type":"http://ex.org/T","http://ex.org/c":{"@id":"http://ex.org/b","http://ex.org/d":[`+b+`]}}]}`)
+	}
+	return out
+}
+
+// c04Large expands a descriptor "n/pos/kind/form": a document of n nodes whose node number pos is invalid in the way
+// `kind` names; form g = {"@graph":[...]}, a = top-level array, c = with an @context, t = the g form cut before its
+// last byte (not JSON at all).
+func c04Large(desc string) string {
+	var n, pos int
+	var kind, form string
+	parts := strings.Split(desc, "/")
+	fmt.Sscan(parts[0], &n)
+	fmt.Sscan(parts[1], &pos)
+	kind, form = parts[2], parts[3]
+	bad := map[string]string{
+		"id-number":    `{"@id":1,"@type":"http://ex.org/T"}`,
+		"type-number":  `{"@id":"http://ex.org/bad","@type":5}`,
+		"value-and-id": `{"@id":"http://ex.org/bad","http://ex.org/p1":{"@value":"x","@id":"http://ex.org/b"}}`,
+		"list-of-list": `{"@id":"http://ex.org/bad","http://ex.org/p1":{"@list":[["a"]]}}`,
+	}[kind]
+	if bad == "" {
+		panic("harness: unknown large-document kind " + kind)
+	}
+	var b strings.Builder
+	switch form {
+	case "a":
+		b.WriteString("[")
+	case "c":
+		b.WriteString(`{"@context":{"ex":"http://ex.org/"},"@graph":[`)
+	default:
+		b.WriteString(`{"@graph":[`)
+	}
+	for i := 0; i < n; i++ {
+		if i > 0 {
+			b.WriteString(",")
+		}
+		if i == pos {
+			b.WriteString(bad)
+		} else {
+			fmt.Fprintf(&b, `{"@id":"http://ex.org/n%d","@type":"http://ex.org/T","http://ex.org/p2":"v%d"}`, i, i)
+		}
+	}
+	if form == "a" {
+		b.WriteString("]")
+	} else {
+		b.WriteString("]}")
+	}
+	out := b.String()
+	if form == "t" {
+		out = out[:len(out)-1]
 	}
 	return out
 }
@@ -323,6 +373,31 @@ func c04Gen(tier string, emit func(c04Case)) {
 		push("d:jsonld", s, true, 8)
 	}
 	flush()
+	// (e) large documents with ONE invalid node: sizes on both sides of powers of two up to 8192, the invalid node first,
+	// in the middle, at a power-of-two index, last (a reader that splits, batches or parallelises large inputs must
+	// not lose the rejection)
+	sizes := []int{129, 513, 2049, 4097}
+	if tier == "thorough" {
+		sizes = append(sizes, 1025, 8193, 16385)
+	}
+	for _, n := range sizes {
+		for _, pos := range []int{0, n / 2, n - 1, 128, 2048, 4096} {
+			if pos >= n {
+				continue
+			}
+			for ki, kind := range []string{"type-number", "id-number", "value-and-id", "list-of-list"} {
+				form := "g"
+				if ki == 1 {
+					form = "a"
+				} else if ki == 2 {
+					form = "c"
+				}
+				push("e:large", fmt.Sprintf("%d/%d/%s/%s", n, pos, kind, form), n == 2049 && pos == 2048, 1)
+			}
+		}
+		push("e:large", fmt.Sprintf("%d/%d/type-number/t", n, 0), false, 1)
+	}
+	flush()
 }
 
 var c04Queries []*rego.PreparedEvalQuery
@@ -364,6 +439,9 @@ func c04Run(c *Ctx, cs c04Case) {
 	work := os.Getenv("VERIF_WORK")
 	for _, d := range cs.Data {
 		one := c04Case{Class: cs.Class, Data: []string{d}, CLI: cs.CLI}
+		if cs.Class == "e:large" {
+			d = c04Large(d) // the case carries a descriptor, not the megabyte of text
+		}
 		readable := JSONReadable(d)
 		// cross-check the recogniser against encoding/json (harness self-check)
 		var v any
